@@ -118,6 +118,7 @@ func NewTarget(targetURL string, options TargetOptions) (*Target, error) {
 	}
 
 	target.proxyHandler = target.createProxyHandler()
+	verifTransport(target.proxyHandler)
 
 	if options.BufferResponses {
 		target.proxyHandler = WithResponseBufferMiddleware(options.MaxMemoryBufferSize, options.MaxResponseBodySize, target.proxyHandler)
@@ -179,6 +180,7 @@ func (t *Target) Drain(timeout time.Duration) {
 		return
 	}
 	defer t.updateState(originalState)
+	verifPoint("target.drain.begin", t.Target())
 
 	deadline := time.After(timeout)
 	toCancel := t.pendingRequestsToCancel()
@@ -203,6 +205,7 @@ WAIT_FOR_REQUESTS_TO_COMPLETE:
 	for _, inflight := range toCancel {
 		inflight.cancel(ErrorDraining)
 	}
+	verifPoint("target.drain.end", t.Target())
 }
 
 func (t *Target) BeginHealthChecks(stateConsumer TargetStateConsumer) {
@@ -258,6 +261,7 @@ func (t *Target) HealthCheckCompleted(success bool) {
 		}
 		newState = t.state
 	})
+	verifPoint("target.health.recorded", t.Target(), success)
 
 	if newState != previousState {
 		slog.Info("Target health updated", "target", t.Target(), "state", newState.String(), "was", previousState.String())
